@@ -150,9 +150,15 @@ def finish(pid, tier, seed, level, rule, assumptions, report, t0, extra_coverage
             listed.setdefault(v["signature"], v)
         else:
             unlisted.append(v)
+    os.makedirs(os.path.join(VERIF, "replays", "known"), exist_ok=True)
+    import hashlib
+
     for sig, v in sorted(listed.items()):
         n = report.counters.get("violations:" + sig, 1)
         print(f"KNOWN-FINDING: property={pid} {sig} :: {known[sig]['what']} (seen in {n} explored cases)")
+        kpath = os.path.join(VERIF, "replays", "known", f"{pid}-{hashlib.sha1(sig.encode()).hexdigest()[:10]}.json")
+        with open(kpath, "w") as f:
+            json.dump({"property": pid, "signature": sig, "detail": v["detail"], "case": v["case"], "known": True}, f, indent=1)
     os.makedirs(os.path.join(VERIF, "replays"), exist_ok=True)
     import glob
 
